@@ -185,6 +185,7 @@ fn fmt_code(v: u64) -> String {
         1 => format!("insert([{a},{b}],exp={c})"),
         2 => format!("query([{a},{b}],t={c},take=all)"),
         3 => format!("layout(case#{a},len_lo={b},len_hi={c},x#{d})"),
+        4 if c == 9 => format!("export-history(case#{b},subject={d})"),
         4 => format!("export-size(n={},order={c},subject={d})", (a << 14) | b),
         5 => format!("new(type#{a})"),
         _ => format!("step#{v:#x}"),
@@ -307,6 +308,86 @@ fn sweep_pairs(a: &Args) -> ! {
                     note_state(acc, &t);
                 }
             }
+        }
+    });
+    finish(acc.report(t0, only.is_none(), ""), a)
+}
+
+
+// ---------------------------------------------------------------------------
+// dpairs: every (insert range, query range) pair of an arbitrary (non power-of-two, wide-bucket) domain
+// ---------------------------------------------------------------------------
+
+fn sweep_dpairs(a: &Args) -> ! {
+    let t0 = Instant::now();
+    let prop = a.prop();
+    let lo = a.inum("lo", -7);
+    let hi = a.inum("hi", 92);
+    let sys = format!("SegExpTree<i32,u8,SV>[{lo},{hi}]");
+    register(a, &sys);
+    let len = (hi - lo + 1) as u128;
+    let s = ref_scale(len);
+    let mut ranges: Vec<(i64, i64)> = vec![];
+    for x in lo..=hi {
+        for y in x..=hi {
+            ranges.push((x, y));
+        }
+    }
+    let only = a.get("only").map(|s| s.to_string());
+    let rs = &ranges;
+    let acc = parallel(ranges.len(), a.num("threads", 16) as usize, prop, &sys, |i, acc| {
+        let (ia, ib) = rs[i];
+        if let Some(o) = &only {
+            if !o.starts_with(&format!("{ia},{ib},")) {
+                return;
+            }
+        }
+        rt::hist_reset();
+        rt::hist_push(code(1, (ia - lo) as u64, (ib - lo) as u64, 0, 0));
+        let mut t = match Seg::new(SegRange { min: lo as i32, max: hi as i32 }) {
+            Some(t) => t,
+            None => {
+                acc.viol("new", "refused", format!("domain [{lo},{hi}] refused"), vec![]);
+                return;
+            }
+        };
+        let v = SV { id: 1, exp: 0 };
+        t.insert_by_range(SegRange { min: ia as i32, max: ib as i32 }, v);
+        acc.transitions += 1;
+        note_state(acc, &t);
+        let (ba, bb) = (ref_bucket(lo, s, ia), ref_bucket(lo, s, ib));
+        if places_of(&t, 1).len() > 8 {
+            acc.viol("insert", "placement", format!("insert of [{ia},{ib}] wrote more than 8 copies"), vec![format!("new([{lo},{hi}])"), format!("insert([{ia},{ib}],exp=0)")]);
+        }
+        for &(c, d) in rs.iter() {
+            if let Some(o) = &only {
+                if *o != format!("{ia},{ib},{c},{d}") {
+                    continue;
+                }
+            }
+            rt::hist_push(code(2, (c - lo) as u64, (d - lo) as u64, 0, 0));
+            let mut n = 0;
+            for _ in t.iter_by_range(SegRange { min: c as i32, max: d as i32 }, 0) {
+                n += 1;
+                if n > 50 {
+                    break;
+                }
+            }
+            acc.transitions += 1;
+            acc.evals += 1;
+            let (bc, bd) = (ref_bucket(lo, s, c), ref_bucket(lo, s, d));
+            let want = (ba <= bd && bc <= bb) as usize;
+            if n != want {
+                let truly = ia <= d && c <= ib;
+                let tag = if n > want { if want == 0 { "spurious" } else { "duplicate" } } else { "missing" };
+                acc.viol("query", tag, format!("domain [{lo},{hi}] (bucket width 2^{s}): value stored over [{ia},{ib}] (buckets {ba}..{bb}), query [{c},{d}] (buckets {bc}..{bd}) at time 0 yielded {n} item(s), expected {want}; ranges truly intersect: {truly}"),
+                    vec![format!("new([{lo},{hi}])"), format!("insert([{ia},{ib}],exp=0)"), format!("query([{c},{d}],t=0,take=all)"), format!("--only {ia},{ib},{c},{d}")]);
+            }
+            if acc.samples.is_empty() && want == 1 && ia != c && i == rs.len() / 3 {
+                acc.samples.push(vec![format!("new([{lo},{hi}])"), format!("insert([{ia},{ib}],exp=0)"), format!("query([{c},{d}],t=0) -> {n} item(s)")]);
+            }
+            rt::hist_reset();
+            rt::hist_push(code(1, (ia - lo) as u64, (ib - lo) as u64, 0, 0));
         }
     });
     finish(acc.report(t0, only.is_none(), ""), a)
@@ -728,7 +809,88 @@ fn sweep_export_sizes(a: &Args) -> ! {
         }
     }
     acc.count("sizes", sizes.len() as u64);
+    if a.get("only").is_none() {
+        export_histories(&mut acc, a.num("grow", 20000) as u32);
+    }
     finish(acc.report(t0, a.get("only").is_none(), ""), a)
+}
+
+/// Configurations and histories in which the arena / list buffer is much larger than the number of
+/// entries stored at export time: large capacity hints, growth followed by mass expiry, growth
+/// followed by clear.  n in the bound is the number of entries physically stored before the export.
+fn export_histories(acc: &mut Acc, grow: u32) {
+    use i_tree::key::exp::KeyExpCollection as KC;
+    let tree_stored = |t: &KeyExpTree<BKey, u32, u32>| -> usize {
+        let s = t.verif_snapshot();
+        crate::inv::analyze(&s, |p| p.0.id).inorder.len()
+    };
+    // (label, hint, phase-1 inserts (expire at 10), clear?, phase-2 inserts at time 10, export time)
+    let mut cases: Vec<(String, usize, u32, bool, u32, u32)> = vec![];
+    for hint in [0usize, 8, 1000, 100_000] {
+        for n in [0u32, 10, 100] {
+            cases.push((format!("hint={hint} then {n} inserts"), hint, 0, false, n, 10));
+        }
+    }
+    for g in [2000u32, grow] {
+        cases.push((format!("{g} inserts expiring at 10, then 5 inserts at time 10"), 8, g, false, 5, 10));
+        cases.push((format!("{g} inserts, clear, then 2 inserts"), 8, g, true, 2, 10));
+    }
+    for (k, (label, hint, g, clr, n2, tq)) in cases.iter().enumerate() {
+        for subject in 0..2u32 {
+            rt::hist_reset();
+            rt::hist_push(code(4, 0, k as u64, 9, subject as u64));
+            println!("TRYING export-history {label} subject={subject}");
+            let case = vec![format!("{}::new({hint})", if subject == 0 { "KeyExpTree" } else { "KeyExpList" }), label.clone(), format!("into_ordered_vec({tq})")];
+            let r = guard(|| {
+                if subject == 0 {
+                    let mut t: KeyExpTree<BKey, u32, u32> = KeyExpTree::new(*hint);
+                    for i in 0..*g {
+                        KC::insert(&mut t, BKey { id: i, exp: 10 }, i, 0);
+                    }
+                    if *clr {
+                        KC::clear(&mut t);
+                    }
+                    for i in 0..*n2 {
+                        KC::insert(&mut t, BKey { id: 1_000_000 + i, exp: 99 }, i, 10);
+                    }
+                    let stored = tree_stored(&t);
+                    (stored, t.into_ordered_vec(*tq))
+                } else {
+                    let mut t: KeyExpList<BKey, u32, u32> = KeyExpList::new(*hint);
+                    for i in 0..*g {
+                        KC::insert(&mut t, BKey { id: i, exp: 10 }, i, 0);
+                    }
+                    if *clr {
+                        KC::clear(&mut t);
+                    }
+                    for i in 0..*n2 {
+                        KC::insert(&mut t, BKey { id: 1_000_000 + i, exp: 99 }, i, 10);
+                    }
+                    let stored = t.verif_snapshot().0.len();
+                    (stored, t.into_ordered_vec(*tq))
+                }
+            });
+            acc.transitions += (*g + *n2) as u64 + 1;
+            acc.evals += 1;
+            acc.states.insert(fingerprint(format!("hist:{k}:{subject}").as_bytes()));
+            match r {
+                Err(_) => acc.viol("export", "panic", format!("export after '{label}' panicked: {}", rt::last_panic()), case),
+                Ok((stored, v)) => {
+                    let bound = 8 * stored + 64;
+                    if v.capacity() > bound {
+                        acc.viol("export", "export-capacity", format!("after '{label}' (subject #{subject}) {stored} entries were stored but into_ordered_vec returned capacity {} > 8n+64 = {bound}", v.capacity()), case.clone());
+                    }
+                    if v.len() != *n2 as usize {
+                        acc.viol("export", "export-content", format!("after '{label}' the export holds {} values, expected {n2}", v.len()), case);
+                    }
+                    if k == 3 && acc.samples.len() < 4 {
+                        acc.samples.push(vec![format!("{label} subject#{subject} -> stored {stored}, len {}, capacity {}", v.len(), v.capacity())]);
+                    }
+                }
+            }
+        }
+    }
+    acc.count("export_histories", cases.len() as u64 * 2);
 }
 
 // ---------------------------------------------------------------------------
@@ -797,6 +959,7 @@ fn sweep_niche(a: &Args) -> ! {
 pub fn dispatch(a: &Args) -> ! {
     match a.get("kind").unwrap_or("") {
         "pairs" => sweep_pairs(a),
+        "dpairs" => sweep_dpairs(a),
         "purge" => sweep_purge(a),
         "layout" => sweep_layout(a),
         "export-sizes" => sweep_export_sizes(a),
